@@ -11,10 +11,14 @@
    utf8.Valid (proto3 string fields)                utf8_valid
    keyset/validation.go Validate, validateKey       validate, validate_key
    keyset/handle.go keysetToEntries/newFromEntries  to_entries / new_from_entries
-   */*/protoserialization.go ParseKey + key.go      parse_key (16 key types)
+   */*/protoserialization.go ParseKey + key.go      parse_key (16 key types of the first round),
+                                                    parse_key_more (21 more: Ed25519 pub/priv, RSA-SSA-PKCS1/PSS
+                                                    priv, ECIES pub/priv, HPKE pub/priv, the two streaming AEAD
+                                                    keys, JWT HMAC / ECDSA pub+priv / RSA-PKCS1+PSS pub+priv /
+                                                    ML-DSA pub, ML-DSA pub, SLH-DSA pub/priv), then the fallback key
    primitive constructors (NewAEAD, NewMAC, ...)    prim_ok
    internal/ec BigIntBytesToFixedSizeBuffer         fixed_size (checked slice)
-   crypto/ecdh NewPublicKey / NewPrivateKey         Section variables (stdlib)
+   crypto/ecdh, ed25519, mlkem, sha3, rsa           the record stdlib (one Section variable)
 
    Every Go slice expression of the in-repo code on this path is a checked
    slice (Bytes.slice): "never panics" is a theorem, not an assumption.
